@@ -17,7 +17,7 @@ import warnings
 
 import numpy as np
 
-from .. import c06_tr, c06_oracle as O
+from .. import c06_tr, c06_complete, c06_oracle as O
 from ..core import TranslateError, clist, cnat, cnats, cints, cz, np_seed
 
 TOL = 1e-8
@@ -94,8 +94,9 @@ def run(ctx):
     warnings.simplefilter('ignore')
     ctx.trusted += ['scipy spsolve and the assembly of real bases (oracle only; the theorems speak about basis tables)',
                     'NumPy/SciPy COO->CSR duplicate summation (modelled as the dense semantics; validated by correspondence)']
-    ctx.assumptions += ['NOT PROVED: the interpolant of a polynomial solution of the element\'s degree satisfies the free rows '
-                        '(Green\'s identity + exact quadrature on affine cells + polynomial completeness of the element)',
+    ctx.assumptions += ['NOT PROVED: the interpolant of a polynomial solution of the element\'s degree satisfies the free rows: Green\'s identity '
+                        'cell by cell and its assembly over the mesh (polynomial completeness is now proved here; exact quadrature on the reference '
+                        'cell is C08/C02)',
                         'NOT PROVED: scipy.sparse.linalg.spsolve returns the solution of a nonsingular system',
                         'the projection theorems cover basis functions that are tuples of scalar- or vector-valued fields (composite / '
                         'vector / H(div) / H(curl) value fields: inner = sum over all components); matrix-valued fields (the ddot branch of '
@@ -111,6 +112,13 @@ def run(ctx):
     ctx.ensure_static()
     gen_ok = False
     try:
+        # polynomial completeness certificates from the exact basis polynomials of the current source
+        txt, summary = c06_complete.generate()
+        ctx.write_gen('C06Complete', txt)
+        ctx.compile_dyn(['gen/C06Complete.v'])
+        ctx.extra['polynomial_completeness'] = summary
+        ctx.cov['exhaustive_finite_part'] = ('polynomial completeness / nodal interpolation: every listed class, every monomial of the '
+                                             'stated degree (finite, certificate-checked by polynomial identity)')
         ctx.write_gen('C06Gen', c06_tr.translate())
         gen_ok = ctx.compile_dyn(['gen/C06Gen.v'])
         if gen_ok:
